@@ -36,6 +36,8 @@ func init() {
 			{ID: "C05.14", Desc: "the hop-by-hop set used for one response is not the shared table (Content-Length added by the 304 merge stays out of later responses)", Run: func(c *Ctx) { ruleHopTablePerResponse(c, "C05.14") }, MinSites: 1},
 			{ID: "C05.15", Desc: "the body of a response that is passed on is not closed by the cache", Run: func(c *Ctx) { ruleForwardedBodyNotClosed(c, "C05.15") }, MinSites: 1},
 			{ID: "C05.16", Desc: "trailers are stored whatever the length framing (HTTP/2 with Content-Length)", Run: func(c *Ctx) { ruleChunkedWhenTrailersOnly(c, "C05.16") }, MinSites: 1},
+			{ID: "C05.17", Desc: "a 304 removes no stored end-to-end field that it does not repeat", Run: func(c *Ctx) { ruleMergeDeletesOnlyAge(c, "C05.17") }, MinSites: 1},
+			{ID: "C05.18", Desc: "no end-to-end field is listed as hop-by-hop", Run: func(c *Ctx) { ruleHopTableExact(c, "C05.18") }, MinSites: 1},
 		},
 	})
 }
